@@ -151,7 +151,7 @@ func runC18(c *kit.Ctx) {
 	}
 
 	// ---- R4 ---------------------------------------------------------------
-	c.StartRule("R4", "exactly one increment per request sent", 1)
+	c.StartRule("R4", "exactly one increment per request sent", 2)
 	if len(ups) != 1 {
 		c.Bad(send, "one-increment", send.Pos(), "send must contain exactly one inFlightUp", "")
 	} else {
@@ -168,10 +168,33 @@ func runC18(c *kit.Ctx) {
 			},
 		})
 		c.Check(e == nil && !kit.Reaches(upI, upI), send, "increment-on-success", upI.Pos(), "every successful send passed the single inFlightUp", "send can succeed without counting the request: no deadline is armed for it: "+c.BlockPath(e))
+		// ... and only a request that was written is counted: every way to inFlightUp passes a write on the
+		// connection (a request that is skipped - an empty batch, a duplicate - gets no answer; counting it arms a
+		// deadline that nothing will clear and the idle connection is torn down readTimeout later)
+		connF := p.Field("region", "client", "conn")
+		isConnWrite := func(in ssa.Instruction) bool {
+			call, ok := in.(*ssa.Call)
+			if !ok {
+				return false
+			}
+			switch kit.CalleeName(call) {
+			case kit.M("region", "*client", "write"):
+				return true
+			case "(*net.Buffers).WriteTo":
+				return len(call.Call.Args) == 2 && connF != nil && isLoadOfField(call.Call.Args[1], connF)
+			}
+			return call.Call.IsInvoke() && call.Call.Method.Name() == "Write" && connF != nil && isLoadOfField(call.Call.Value, connF)
+		}
+		w := kit.PathFromEntry(send, kit.PathQuery{
+			Stop:         isConnWrite,
+			Target:       func(in ssa.Instruction) bool { return in == upI },
+			IgnorePanics: true,
+		})
+		c.Check(w == nil, send, "counted-only-when-written", upI.Pos(), "every way to inFlightUp passes a write of the request on the connection", "a request can be counted as outstanding without having been written: no response will ever decrement the counter, the read deadline stays armed and the idle, healthy connection is torn down: "+c.BlockPath(w))
 	}
 
 	// ---- R5 ---------------------------------------------------------------
-	c.StartRule("R5", "arm with now+readTimeout, clear with the zero time, errors are connection failures", 4)
+	c.StartRule("R5", "arm with now+readTimeout, clear with the zero time, errors are connection failures", 6)
 	{
 		// every connection is created with the configured read timeout
 		rrt := p.Field("", "client", "regionReadTimeout")
@@ -221,6 +244,65 @@ func runC18(c *kit.Ctx) {
 	}
 	for _, call := range kit.Calls(down, srd) {
 		c.Check(isZeroTime(call.Common().Args[0]), down, "clear-value", call.Pos(), "cleared with the zero time", "inFlightDown sets a non-zero deadline")
+	}
+	// the timeout armed is the configured one: the field is written once, in the constructor, with the
+	// constructor's duration parameter as it came (not raised to the flush interval, not defaulted)
+	{
+		nc := c.Anchor("region", "", "NewClient")
+		n := 0
+		for _, fn := range p.Funcs {
+			if fn.Pkg == nil || !p.IsSubject(fn) {
+				continue
+			}
+			kit.Instrs(fn, func(in ssa.Instruction) {
+				st, ok := in.(*ssa.Store)
+				if !ok {
+					return
+				}
+				fa, ok := st.Addr.(*ssa.FieldAddr)
+				if !ok || kit.FieldVar(fa.X.Type(), fa.Field) != readTimeout {
+					return
+				}
+				n++
+				pa, isParam := kit.Root(st.Val).(*ssa.Parameter)
+				c.Check(fn == nc && isParam && pa.Parent() == nc, fn, "read-timeout-as-configured", st.Pos(), "readTimeout is set in NewClient from its parameter, unchanged", "the read timeout of a connection is set to something other than the value it was created with (raised, defaulted or changed later): a silent server is not detected within the configured time")
+			})
+		}
+		if n == 0 {
+			c.Unk(nc, "read-timeout-as-configured", token.NoPos, "no place found where the read timeout of a connection is set")
+		}
+	}
+	// the zero time is what inFlightUp sets only where nothing is outstanding: every way to its SetReadDeadline
+	// computes now+readTimeout or crosses an edge on which the counter is known not to be positive - no other
+	// condition (kind of client, size of the request, time of day) may select the zero time
+	for _, call := range kit.Calls(up, srd) {
+		target := call.(ssa.Instruction)
+		e := kit.PathFromEntry(up, kit.PathQuery{
+			Target: func(x ssa.Instruction) bool { return x == target },
+			Stop: func(x ssa.Instruction) bool {
+				cc, ok := x.(*ssa.Call)
+				return ok && kit.CalleeName(cc) == "(time.Time).Add" && len(cc.Call.Args) == 2 && isLoadOfField(cc.Call.Args[1], readTimeout)
+			},
+			SkipEdge: func(from, to *ssa.BasicBlock) bool {
+				for _, f := range kit.EdgeFacts(from, to) {
+					cmp, ok := kit.CanonCmp(f.Cond, f.Pol)
+					if !ok || !isLoadOfField(cmp.X, inFlight) {
+						continue
+					}
+					k, isK := kit.ConstInt(cmp.Y)
+					if !isK {
+						continue
+					}
+					switch {
+					case cmp.Op == token.LEQ && k <= 0, cmp.Op == token.LSS && k <= 1, cmp.Op == token.EQL && k <= 0:
+						return true
+					}
+				}
+				return false
+			},
+			IgnorePanics: true,
+		})
+		c.Check(e == nil, up, "armed-whenever-outstanding", call.Pos(), "the deadline set is now+readTimeout on every way on which the counter is positive", "inFlightUp can set the zero time (no read deadline) although requests are outstanding - for some kind of client or request a silent server is never detected: "+c.BlockPath(e))
 	}
 	defer func() {
 		c.StartRule("R6", "a read error, including the read timeout, is a connection failure", 5)
@@ -284,9 +366,17 @@ func runC18(c *kit.Ctx) {
 							errB = kit.SuccOnFalse(iff)
 						}
 						// every return from the error edge yields a ServerError
-						e := kit.PathFromBlock(errB, kit.PathQuery{Target: func(in ssa.Instruction) bool {
+						e := kit.PathFromBlock(errB, kit.PathQuery{TargetPath: func(in ssa.Instruction, path []*ssa.BasicBlock) bool {
 							r, ok := in.(*ssa.Return)
-							return ok && !isServerErrorValue(p, returnedError(r))
+							if !ok {
+								return false
+							}
+							// the value returned on this way (a helper's error result is merged from its returns)
+							ev := returnedError(r)
+							if ev != nil {
+								ev = kit.ResolveAlong(ev, path)
+							}
+							return !isServerErrorValue(p, ev)
 						}})
 						good = e == nil
 					}
